@@ -79,6 +79,7 @@ def oracle_mmd(case):
     a = case["a"]
     X = gens.build_X(case["x"], len(P), nonneg=gens.needs_nonneg(a))
     g, A, Aref = make_mmd(a, case["ovo"], X)
+    objs._decoy(g, a, X)
     label = f"MMDGEMINI(ovo={case['ovo']}, {a['form']}:{a['name']}{a['params']})"
     check_affinity(A, Aref, label)
     ref, nt = check_score(g, P, np.asarray(A, dtype=float), "mmd", case["ovo"], label)
@@ -99,6 +100,7 @@ def oracle_wass(case):
     a = case["a"]
     X = gens.build_X(case["x"], len(P))
     g, A, Aref = make_wass(a, case["ovo"], X)
+    objs._decoy(g, a, X)
     label = f"WassersteinGEMINI(ovo={case['ovo']}, {a['form']}:{a['name']}{a['params']})"
     check_affinity(A, Aref, label)
     ref, nt = check_score(g, P, np.ascontiguousarray(A, dtype=float), "wasserstein", case["ovo"], label)
@@ -167,8 +169,15 @@ def oracle_large(case):
             "note": {"score": ref}}
 
 
+@st.composite
+def huge_case(draw):
+    gs = draw(objs.gemini_spec(bases=("tv", "kl", "mmd", "hellinger", "chi2"), kernel_forms=("named",)))
+    return {"g": gs, "p": draw(gens.p_spec(n_min=1025, n_max=2600, k_min=2, k_max=5)), "x": draw(gens.x_spec(d_max=2, kinds=("normal",)))}
+
+
 def subs():
     return [
+        Sub("huge_n", huge_case(), oracle_large, 80, 800, "n in (1024, 2600]: block sizes of 1024/2048 rows"),
         Sub("large_shapes", large_case(), oracle_large, 600, 12000, "n up to 320 and K up to 48 (size thresholds, blocked code paths)"),
         Sub("fdivergences", fdiv_case(), oracle_fdiv, 6000, 100000, "4 f-divergence classes x ovo (+MI shortcut)"),
         Sub("mmd", mmd_case(), oracle_mmd, 4000, 60000, "MMDGEMINI over kernel forms"),
